@@ -48,19 +48,23 @@ Proof. apply getv_setv_raw_other. Qed.
 Lemma hp_setv st d o : hp (setv st d o) = hp st.
 Proof. reflexivity. Qed.
 
-Definition vcontents (st : state) (w : var) : list Z := contents (hp st) (getv st w).
-
 (* a variable whose slice is on an array the operation did not write keeps its contents *)
 Definition wf_var (st : state) (w : var) : Prop :=
   match getv st w with Some s => s_len s = 0 \/ s_arr s < length (hp st) | None => True end.
 
-(* ---------- F1: operations that are not destructive change no other variable (every state) ---------- *)
-Definition nondestructive (o : op) : bool :=
-  match o with
-  | OList _ _ | OCons _ _ _ | OCdr _ _ | ONthcdr _ _ _ | OLast _ _ | OButlast _ _ | OSubseq _ _ _ _ | OCopy _ _
-  | OReverse _ _ | OAppend _ _ _ | OPush _ _ | OPop _ | ORemove _ _ _ => true
-  | _ => false
-  end.
+
+Definition upd (st : state) (h' : heap) (d : var) (o : option slice) : state := {| hp := h'; vars := set_nth d o (vars st) |}.
+Lemma setv_upd st h' d o : setv {| hp := h'; vars := vars st |} d o = upd st h' d (norm o).
+Proof. reflexivity. Qed.
+Lemma setv_upd0 st d o : setv st d o = upd st (hp st) d (norm o).
+Proof. reflexivity. Qed.
+Lemma setv_raw_upd st d o : setv_raw st d o = upd st (hp st) d o.
+Proof. reflexivity. Qed.
+Lemma fresh_upd st d xs cap :
+  fresh st d xs cap = upd st (fst (alloc (hp st) xs cap)) d (norm (Some (snd (alloc (hp st) xs cap)))).
+Proof. unfold fresh. destruct (alloc (hp st) xs cap) as [h' r]. reflexivity. Qed.
+Lemma getv_upd_other st h' d o w : w <> d -> getv (upd st h' d o) w = getv st w.
+Proof. intros H. unfold getv, upd; cbn. apply nth_set_nth_other. congruence. Qed.
 
 Lemma contents_alloc_old h xs cap o :
   (match o with Some s => s_len s = 0 \/ s_arr s < length h | None => True end) ->
@@ -72,52 +76,53 @@ Proof.
   - apply contents_same_arr. apply arr_app_old, H.
 Qed.
 
-Ltac frame_alloc Hw Hd :=
-  match goal with
-  | |- context [alloc ?h ?xs ?cap] =>
-      let E := fresh in
-      pose proof (contents_alloc_old h xs cap) as E; destruct (alloc h xs cap) as [h' r] eqn:Ea; cbn [fst] in E;
-      unfold vcontents; rewrite getv_setv_other by exact Hd; cbn [hp setv setv_raw getv vars] in *;
-      apply E; exact Hw
+Lemma vcontents_fresh_other st d xs cap w : w <> d -> wf_var st w -> vcontents (fresh st d xs cap) w = vcontents st w.
+Proof.
+  intros Hd Hw. rewrite fresh_upd. unfold vcontents. rewrite getv_upd_other by exact Hd. cbn [hp upd].
+  apply contents_alloc_old. exact Hw.
+Qed.
+Lemma vcontents_setv_other st d o w : w <> d -> vcontents (setv st d o) w = vcontents st w.
+Proof. intros Hd. unfold vcontents. rewrite getv_setv_other by exact Hd. reflexivity. Qed.
+Lemma vcontents_setv_raw_other st d o w : w <> d -> vcontents (setv_raw st d o) w = vcontents st w.
+Proof. intros Hd. unfold vcontents. rewrite getv_setv_raw_other by exact Hd. reflexivity. Qed.
+
+(* ---------- F1: operations that are not destructive change no other variable (every state) ---------- *)
+Definition nondestructive (o : op) : bool :=
+  match o with
+  | OList _ _ | OCons _ _ _ | OListStar _ _ _ | OCdr _ _ | ONthcdr _ _ _ | OMember _ _ _ | OLast _ _ | OButlast _ _
+  | OSubseq _ _ _ _ | OCopy _ _ | OReverse _ _ | OAppend _ _ _ | OAdd _ _ _ | OPush _ _ | OPop _ | ORemove _ _ _
+  | OMapcar _ _ _ | ONconc _ _ _ => true
+  | _ => false
   end.
+
+Ltac frame_cases Hd Hw :=
+  repeat match goal with
+         | |- context [match ?x with _ => _ end] => destruct x
+         end;
+  first [ reflexivity
+        | apply vcontents_setv_other; exact Hd
+        | apply vcontents_setv_raw_other; exact Hd
+        | apply vcontents_fresh_other; [exact Hd|exact Hw] ].
 
 Theorem nondestructive_frame st o cap w :
   nondestructive o = true -> w <> dst_of o -> wf_var st w -> vcontents (step st o cap) w = vcontents st w.
 Proof.
-  intros Hn Hd Hw. unfold wf_var in Hw.
-  destruct o; try discriminate Hn; cbn [dst_of] in Hd; cbn [step].
-  - (* list *) destruct xs; [unfold vcontents; rewrite getv_setv_other by exact Hd; reflexivity|]. frame_alloc Hw Hd.
-  - frame_alloc Hw Hd.
-  - (* cdr *) destruct (getv st src) as [s|]; [destruct (s_len s =? 0)|]; unfold vcontents; rewrite getv_setv_other by exact Hd; reflexivity.
-  - destruct (getv st src) as [s|]; [destruct (s_len s <=? n)|]; unfold vcontents; rewrite getv_setv_other by exact Hd; reflexivity.
-  - (* last *) destruct (getv st src) as [s|]; [destruct (s_len s <=? 1)|]; try (unfold vcontents; rewrite getv_setv_other by exact Hd; reflexivity). frame_alloc Hw Hd.
-  - destruct (getv st src) as [s|]; [destruct (s_len s <=? 1)|]; try (unfold vcontents; rewrite getv_setv_other by exact Hd; reflexivity). frame_alloc Hw Hd.
-  - (* subseq *) destruct (getv st src) as [s0|]; [destruct ((s <=? e) && (e <=? s_len s0))|]; try reflexivity.
-    unfold vcontents; rewrite getv_setv_other by exact Hd; reflexivity.
-  - destruct (getv st src) as [s|]; [|unfold vcontents; rewrite getv_setv_other by exact Hd; reflexivity]. frame_alloc Hw Hd.
-  - destruct (getv st src) as [s|]; [destruct (s_len s =? 0)|]; try (unfold vcontents; rewrite getv_setv_other by exact Hd; reflexivity). frame_alloc Hw Hd.
-  - (* append *) destruct (contents (hp st) (getv st a)), (contents (hp st) (getv st b));
-      try (unfold vcontents; rewrite getv_setv_other by exact Hd; reflexivity); frame_alloc Hw Hd.
-  - frame_alloc Hw Hd.
-  - (* pop *) destruct (getv st v) as [s|]; [destruct (s_len s =? 0)|]; try reflexivity.
-    unfold vcontents. rewrite getv_setv_raw_other by exact Hd. reflexivity.
-  - (* remove *) frame_alloc Hw Hd.
+  intros Hn Hd Hw.
+  destruct o; try discriminate Hn; cbn [dst_of] in Hd; cbn [step]; frame_cases Hd Hw.
 Qed.
 
 (* ---------- F2: a destructive operation on v changes another variable only if that variable's
    slice lies on the same backing array as v's (every state) ---------- *)
-Lemma frame_write_all st a i xs w t :
-  getv st w = Some t -> s_arr t <> a ->
-  contents (write_all (hp st) a i xs) (Some t) = contents (hp st) (Some t).
-Proof. intros _ Hn. apply contents_same_arr. apply arr_write_all_other, Hn. Qed.
-Lemma frame_write st a i x t : s_arr t <> a -> contents (write (hp st) a i x) (Some t) = contents (hp st) (Some t).
-Proof. intros Hn. apply contents_same_arr. apply arr_write_other, Hn. Qed.
-
 Lemma getv_mk st h w : getv {| hp := h; vars := vars st |} w = getv st w.
 Proof. reflexivity. Qed.
-Ltac frame_inplace Hd Hw Hna :=
-  unfold vcontents; rewrite ?getv_setv_other by exact Hd; rewrite ?hp_setv; cbn [hp]; rewrite getv_mk, Hw;
-  first [apply frame_write; exact Hna | apply contents_same_arr; apply arr_write_all_other; exact Hna].
+Lemma vcontents_heap_other st h' w t :
+  getv st w = Some t -> arr h' (s_arr t) = arr (hp st) (s_arr t) ->
+  vcontents {| hp := h'; vars := vars st |} w = vcontents st w.
+Proof. intros Hw Ha. unfold vcontents. rewrite getv_mk, Hw. cbn [hp]. apply contents_same_arr. exact Ha. Qed.
+Lemma vcontents_setv_heap_other st h' d o w t :
+  w <> d -> getv st w = Some t -> arr h' (s_arr t) = arr (hp st) (s_arr t) ->
+  vcontents (setv {| hp := h'; vars := vars st |} d o) w = vcontents st w.
+Proof. intros Hd Hw Ha. rewrite vcontents_setv_other by exact Hd. apply (vcontents_heap_other st h' w t Hw Ha). Qed.
 
 Theorem destructive_frame st o cap v s w t :
   destructive_on o = Some v -> getv st v = Some s ->
@@ -126,26 +131,25 @@ Theorem destructive_frame st o cap v s w t :
   vcontents (step st o cap) w = vcontents st w.
 Proof.
   intros Hdes Hv Hd Hw Hwf Hna.
-  assert (Hw' : match getv st w with Some s0 => s_len s0 = 0 \/ s_arr s0 < length (hp st) | None => True end) by (rewrite Hw; exact Hwf).
+  assert (Hw' : wf_var st w) by (unfold wf_var; rewrite Hw; exact Hwf).
   destruct o; try discriminate Hdes; cbn [destructive_on] in Hdes; injection Hdes as ->; cbn [dst_of] in Hd; cbn [step]; rewrite Hv.
-  - (* add *)
-    destruct (s_len s <? scap (hp st) s).
-    + frame_inplace Hd Hw Hna.
-    + frame_alloc Hw' Hd.
   - (* setf car *)
-    destruct (0 <? s_len s); [|reflexivity]. frame_inplace Hd Hw Hna.
+    destruct (0 <? s_len s); [|reflexivity]. apply (vcontents_heap_other st _ w t Hw). apply arr_write_other, Hna.
   - (* setf nth *)
-    destruct (i <? s_len s); [|reflexivity]. frame_inplace Hd Hw Hna.
+    destruct (i <? s_len s); [|reflexivity]. apply (vcontents_heap_other st _ w t Hw). apply arr_write_other, Hna.
+  - (* setf elt *)
+    destruct (i <? s_len s); [|reflexivity]. apply (vcontents_heap_other st _ w t Hw). apply arr_write_other, Hna.
+  - (* rplaca *)
+    destruct (0 <? s_len s); [|reflexivity]. apply (vcontents_setv_heap_other st _ dst _ w t Hd Hw). apply arr_write_other, Hna.
+  - (* rplacd *)
+    destruct (getv st b) as [tb|]; [|reflexivity]. destruct (0 <? s_len s); [|reflexivity].
+    destruct (1 + length (contents (hp st) (Some tb)) <=? scap (hp st) s).
+    + apply (vcontents_setv_heap_other st _ dst _ w t Hd Hw). apply arr_write_all_other, Hna.
+    + apply vcontents_fresh_other; assumption.
   - (* nreverse *)
-    frame_inplace Hd Hw Hna.
-  - (* nconc *)
-    destruct (s_len s =? 0); [unfold vcontents; rewrite getv_setv_other by exact Hd; reflexivity|].
-    destruct (contents (hp st) (getv st b)) as [|z cb] eqn:Eb; [unfold vcontents; rewrite getv_setv_other by exact Hd; reflexivity|].
-    destruct (s_len s + length (z :: cb) <=? scap (hp st) s).
-    + frame_inplace Hd Hw Hna.
-    + frame_alloc Hw' Hd.
+    apply (vcontents_setv_heap_other st _ dst _ w t Hd Hw). apply arr_write_all_other, Hna.
   - (* sort *)
-    frame_inplace Hd Hw Hna.
+    apply (vcontents_setv_heap_other st _ dst _ w t Hd Hw). apply arr_write_all_other, Hna.
 Qed.
 
 (* ---------- F3: the invariant "slices on one array are tails of one another" ---------- *)
@@ -163,7 +167,6 @@ Proof. destruct o as [s|]; cbn; [|reflexivity]. destruct (s_len s =? 0) eqn:E; c
 Lemma norm_some o s : norm o = Some s -> o = Some s /\ s_len s <> 0.
 Proof. destruct o as [t|]; cbn; [|discriminate]. destruct (s_len t =? 0) eqn:E; [discriminate|]. intros H; injection H as <-. apply Nat.eqb_neq in E. auto. Qed.
 
-Definition upd (st : state) (h' : heap) (d : var) (o : option slice) : state := {| hp := h'; vars := set_nth d o (vars st) |}.
 Lemma live_upd st h' d o w : d < length (vars st) ->
   live (upd st h' d o) w = if Nat.eqb w d then norm o else live st w.
 Proof.
@@ -253,12 +256,6 @@ Proof.
   intros w t Hw. apply (Hs w t). exact Hw.
 Qed.
 
-Lemma setv_upd st h' d o : setv {| hp := h'; vars := vars st |} d o = upd st h' d (norm o).
-Proof. reflexivity. Qed.
-Lemma setv_upd0 st d o : setv st d o = upd st (hp st) d (norm o).
-Proof. reflexivity. Qed.
-Lemma setv_raw_upd st d o : setv_raw st d o = upd st (hp st) d o.
-Proof. reflexivity. Qed.
 
 Lemma contents_length h s : wf_slice h s -> length (contents h (Some s)) = s_len s.
 Proof. intros [_ W]. cbn. rewrite firstn_length, skipn_length. lia. Qed.
@@ -267,42 +264,45 @@ Proof. rewrite live_norm. apply norm_some. Qed.
 Lemma live_of_getv st v s : getv st v = Some s -> s_len s <> 0 -> live st v = Some s.
 Proof. intros H Hn. rewrite live_norm, H. cbn. apply Nat.eqb_neq in Hn. rewrite Hn. reflexivity. Qed.
 
+
 Definition op_vars_ok (nv : nat) (o : op) : Prop :=
   dst_of o < nv.
 
-Lemma alone_spec nv st v a : alone_on_array nv st v a = true -> length (vars st) = nv ->
-  forall w t, w <> v -> live st w = Some t -> s_arr t <> a.
+Lemma inv_fresh' nv st d xs cap : Inv nv st -> d < nv -> Inv nv (fresh st d xs cap).
 Proof.
-  unfold alone_on_array. rewrite forallb_forall. intros H Hl w t Hw Hlive.
-  destruct (Nat.lt_ge_cases w nv) as [Hlt|Hge].
-  - specialize (H w). rewrite in_seq in H. specialize (H ltac:(lia)).
-    apply orb_true_iff in H as [H|H]; [apply Nat.eqb_eq in H; congruence|]. rewrite Hlive in H.
-    apply negb_true_iff, Nat.eqb_neq in H. exact H.
-  - exfalso. rewrite live_norm in Hlive. unfold getv in Hlive. rewrite nth_overflow in Hlive by lia. discriminate.
+  intros HI Hd. rewrite fresh_upd. destruct (alloc (hp st) xs cap) as [h' r] eqn:Ea. cbn [fst snd].
+  eapply inv_fresh; eassumption.
 Qed.
-
-(* in-place extension of the only slice on its array *)
-Lemma inv_extend nv st h' d s k :
-  Inv nv st -> d < nv -> heap_grows (hp st) h' -> live st d = Some s \/ (getv st d = Some s /\ True) ->
-  getv st d = Some s -> s_arr s < length (hp st) -> s_off s + s_len s + k <= length (arr (hp st) (s_arr s)) ->
-  (forall w t, w <> d -> live st w = Some t -> s_arr t <> s_arr s) ->
-  Inv nv (upd st h' d (norm (Some {| s_arr := s_arr s; s_off := s_off s; s_len := s_len s + k |}))).
+(* the result is the value of another variable *)
+Lemma inv_alias nv st d src : Inv nv st -> d < nv -> Inv nv (upd st (hp st) d (norm (getv st src))).
 Proof.
-  intros HI Hd Hg _ Hget Ha Hcap Halone. apply inv_upd; [exact HI|exact Hd|exact Hg|].
-  intros t Ht. rewrite norm_idem in Ht. apply norm_some in Ht as [Ht _]. injection Ht as <-. cbn [s_arr s_off s_len].
-  destruct Hg as [G1 G2]. split.
-  - split; cbn [s_arr s_off s_len]; [clear - Ha G1; lia|specialize (G2 (s_arr s)); clear - Hcap G2; lia].
-  - intros w t Hw Hlive Hsame. exfalso. apply (Halone w t Hw Hlive Hsame).
+  intros HI Hd. destruct (live st src) as [s|] eqn:El.
+  - apply (inv_reslice nv st d _ s src HI Hd El). intros t Ht. rewrite norm_idem, <- live_norm, El in Ht. injection Ht as <-. auto.
+  - rewrite <- live_norm, El. apply inv_none; assumption.
 Qed.
+Lemma inv_alias_heap nv st h' d src o :
+  Inv nv st -> d < nv -> heap_grows (hp st) h' -> getv st src = o -> Inv nv (upd st h' d (norm o)).
+Proof.
+  intros HI Hd Hg <-. pose proof (inv_heap nv st h' HI Hg) as HI2.
+  exact (inv_alias nv {| hp := h'; vars := vars st |} d src HI2 Hd).
+Qed.
+Lemma index_of_lt x l : forall i, index_of x l = Some i -> i < length l.
+Proof.
+  induction l as [|y l IH]; intros i H; cbn in *; [discriminate|].
+  destruct (Z.eqb x y); [injection H as <-; lia|]. destruct (index_of x l) as [j|]; [|discriminate].
+  injection H as <-. specialize (IH j eq_refl). lia.
+Qed.
+Lemma contents_length_le h s : length (contents h (Some s)) <= s_len s.
+Proof. cbn. rewrite firstn_length. lia. Qed.
 
 Theorem inv_step nv st o cap :
-  Inv nv st -> op_vars_ok nv o -> g_step nv st o = true -> Inv nv (step st o cap).
+  Inv nv st -> op_vars_ok nv o -> g_inv o = true -> Inv nv (step st o cap).
 Proof.
   intros HI Hd Hg. unfold op_vars_ok in Hd. pose proof HI as [Hlen HI'].
-  destruct o; cbn [dst_of] in Hd; cbn [step].
-  - (* list *) destruct xs as [|x xs]; [rewrite setv_upd0; apply inv_none; assumption|].
-    destruct (alloc (hp st) (x :: xs) cap) as [h' r] eqn:Ea. rewrite setv_upd. eapply inv_fresh; eassumption.
-  - (* cons *) destruct (alloc (hp st) _ cap) as [h' r] eqn:Ea. rewrite setv_upd. eapply inv_fresh; eassumption.
+  destruct o; cbn [dst_of] in Hd; cbn [step]; try discriminate Hg.
+  - (* list *) apply inv_fresh'; assumption.
+  - (* cons *) apply inv_fresh'; assumption.
+  - (* list* *) destruct xs; [rewrite setv_upd0; apply inv_alias; assumption|apply inv_fresh'; assumption].
   - (* cdr *)
     destruct (getv st src) as [s|] eqn:Es; [|rewrite setv_upd0; apply inv_none; assumption].
     destruct (s_len s =? 0) eqn:El; [rewrite setv_upd0; apply inv_none; assumption|]. apply Nat.eqb_neq in El.
@@ -313,54 +313,31 @@ Proof.
     destruct (s_len s <=? n) eqn:El; [rewrite setv_upd0; apply inv_none; assumption|]. apply Nat.leb_gt in El.
     rewrite setv_upd0. eapply (inv_reslice nv st dst _ s src); [exact HI|exact Hd|apply live_of_getv; [assumption|lia]|].
     intros t Ht. apply norm_some in Ht as [Ht _]. apply norm_some in Ht as [Ht _]. injection Ht as <-. cbn. split; [reflexivity|lia].
+  - (* member *)
+    destruct (getv st src) as [s|] eqn:Es; [|rewrite setv_upd0; apply inv_none; assumption].
+    destruct (index_of x (contents (hp st) (Some s))) as [i|] eqn:Ei; [|rewrite setv_upd0; apply inv_none; assumption].
+    apply index_of_lt in Ei. pose proof (contents_length_le (hp st) s) as Hle.
+    rewrite setv_upd0. eapply (inv_reslice nv st dst _ s src); [exact HI|exact Hd|apply live_of_getv; [assumption|lia]|].
+    intros t Ht. apply norm_some in Ht as [Ht _]. apply norm_some in Ht as [Ht _]. injection Ht as <-. cbn. split; [reflexivity|lia].
   - (* last *)
     destruct (getv st src) as [s|] eqn:Es; [|rewrite setv_upd0; apply inv_none; assumption].
-    destruct (s_len s <=? 1).
-    + rewrite setv_upd0. destruct (Nat.eq_dec (s_len s) 0) as [E0|E0].
-      * cbn [norm]. apply Nat.eqb_eq in E0. rewrite E0. apply inv_none; assumption.
-      * eapply (inv_reslice nv st dst _ s src); [exact HI|exact Hd|apply live_of_getv; assumption|].
-        intros t Ht. apply norm_some in Ht as [Ht _]. apply norm_some in Ht as [Ht _]. injection Ht as <-. auto.
-    + destruct (alloc (hp st) _ cap) as [h' r] eqn:Ea. rewrite setv_upd. eapply inv_fresh; eassumption.
+    destruct (s_len s <=? 1); [|apply inv_fresh'; assumption].
+    rewrite setv_upd0, <- Es. apply inv_alias; assumption.
   - (* butlast *)
     destruct (getv st src) as [s|] eqn:Es; [|rewrite setv_upd0; apply inv_none; assumption].
-    destruct (s_len s <=? 1); [rewrite setv_upd0; apply inv_none; assumption|].
-    destruct (alloc (hp st) _ cap) as [h' r] eqn:Ea. rewrite setv_upd. eapply inv_fresh; eassumption.
-  - (* subseq: outside the guard *) discriminate Hg.
+    destruct (s_len s <=? 1); [rewrite setv_upd0; apply inv_none; assumption|apply inv_fresh'; assumption].
+  - (* subseq *)
+    destruct (getv st src) as [s0|] eqn:Es; [|exact HI].
+    destruct ((s <=? e) && (e <=? s_len s0)); [apply inv_fresh'; assumption|exact HI].
   - (* copy-list *)
-    destruct (getv st src) as [s|] eqn:Es; [|rewrite setv_upd0; apply inv_none; assumption].
-    destruct (alloc (hp st) _ cap) as [h' r] eqn:Ea. rewrite setv_upd. eapply inv_fresh; eassumption.
+    destruct (getv st src) as [s|] eqn:Es; [|rewrite setv_upd0; apply inv_none; assumption]. apply inv_fresh'; assumption.
   - (* reverse *)
     destruct (getv st src) as [s|] eqn:Es; [|rewrite setv_upd0; apply inv_none; assumption].
-    destruct (s_len s =? 0) eqn:El.
-    + rewrite setv_upd0. cbn [norm]. rewrite El. apply inv_none; assumption.
-    + destruct (alloc (hp st) _ cap) as [h' r] eqn:Ea. rewrite setv_upd. eapply inv_fresh; eassumption.
-  - (* append *)
-    destruct (contents (hp st) (getv st a)) as [|x ca] eqn:Ea0, (contents (hp st) (getv st b)) as [|y cb] eqn:Eb0;
-      try (destruct (alloc (hp st) _ cap) as [h' r] eqn:Ea; rewrite setv_upd; eapply inv_fresh; eassumption).
-    (* both empty: under the invariant neither is a live slice *)
-    rewrite setv_upd0.
-    assert (Hdead : forall v, contents (hp st) (getv st v) = [] -> norm (getv st v) = None).
-    { intros v Hc. destruct (norm (getv st v)) as [s|] eqn:En; [|reflexivity]. exfalso.
-      rewrite <- live_norm in En. destruct (HI' v s En) as [W _]. apply live_some in En as [Eg Hn].
-      rewrite Eg in Hc. apply (f_equal (@length Z)) in Hc. rewrite (contents_length _ _ W) in Hc. cbn in Hc. lia. }
-    replace (norm match getv st a with Some s => Some s | None => getv st b end) with (@None slice).
-    + apply inv_none; assumption.
-    + symmetry. destruct (getv st a) as [s|] eqn:Ega; [rewrite <- Ega; apply Hdead; rewrite Ega; exact Ea0|apply Hdead, Eb0].
-  - (* add *)
-    cbn [g_step] in Hg. destruct (getv st src) as [s|] eqn:Es.
-    + destruct (s_len s <? scap (hp st) s) eqn:Ecap.
-      * apply andb_true_iff in Hg as [Heq Halone]. apply Nat.eqb_eq in Heq. subst dst.
-        rewrite setv_upd. replace (S (s_len s)) with (s_len s + 1) by lia.
-        apply Nat.ltb_lt in Ecap. unfold scap in Ecap.
-        assert (Ha : s_arr s < length (hp st)).
-        { destruct (Nat.lt_ge_cases (s_arr s) (length (hp st))) as [H|H]; [exact H|]. unfold arr in Ecap. rewrite nth_overflow in Ecap by exact H. cbn in Ecap. lia. }
-        apply (inv_extend nv st _ src s 1); try assumption; try (right; auto).
-        -- apply heap_grows_write.
-        -- lia.
-        -- apply (alone_spec nv st src (s_arr s) Halone Hlen).
-      * destruct (alloc (hp st) _ cap) as [h' r] eqn:Ea. rewrite setv_upd. eapply inv_fresh; eassumption.
-    + destruct (alloc (hp st) _ cap) as [h' r] eqn:Ea. rewrite setv_upd. eapply inv_fresh; eassumption.
-  - (* push *) destruct (alloc (hp st) _ cap) as [h' r] eqn:Ea. rewrite setv_upd. eapply inv_fresh; eassumption.
+    destruct (s_len s =? 0) eqn:El; [|apply inv_fresh'; assumption].
+    rewrite setv_upd0, <- Es. apply inv_alias; assumption.
+  - (* append *) apply inv_fresh'; assumption.
+  - (* add *) apply inv_fresh'; assumption.
+  - (* push *) apply inv_fresh'; assumption.
   - (* pop *)
     destruct (getv st v) as [s|] eqn:Es; [|exact HI].
     destruct (s_len s =? 0) eqn:El; [exact HI|]. apply Nat.eqb_neq in El.
@@ -370,59 +347,41 @@ Proof.
     destruct (getv st v) as [s|]; [|exact HI]. destruct (0 <? s_len s); [|exact HI]. apply inv_heap; [exact HI|apply heap_grows_write].
   - (* setf nth *)
     destruct (getv st v) as [s|]; [|exact HI]. destruct (i <? s_len s); [|exact HI]. apply inv_heap; [exact HI|apply heap_grows_write].
+  - (* setf elt *)
+    destruct (getv st v) as [s|]; [|exact HI]. destruct (i <? s_len s); [|exact HI]. apply inv_heap; [exact HI|apply heap_grows_write].
+  - (* rplaca *)
+    destruct (getv st v) as [s|] eqn:Es; [|exact HI]. destruct (0 <? s_len s); [|exact HI].
+    rewrite setv_upd. apply (inv_alias_heap nv st _ dst v _ HI Hd); [apply heap_grows_write|exact Es].
   - (* nreverse *)
     destruct (getv st src) as [s|] eqn:Es; [|rewrite setv_upd0; apply inv_none; assumption].
-    rewrite setv_upd.
-    assert (HI2 : Inv nv {| hp := write_all (hp st) (s_arr s) (s_off s) (rev (contents (hp st) (Some s))); vars := vars st |})
-      by (apply inv_heap; [exact HI|apply heap_grows_write_all]).
-    destruct (Nat.eq_dec (s_len s) 0) as [E0|E0].
-    * cbn [norm]. apply Nat.eqb_eq in E0. rewrite E0. apply (inv_none nv _ dst HI2 Hd).
-    * apply (inv_reslice nv _ dst _ s src HI2 Hd); [apply live_of_getv; assumption|].
-      intros t Ht. apply norm_some in Ht as [Ht _]. apply norm_some in Ht as [Ht _]. injection Ht as <-. auto.
+    rewrite setv_upd. apply (inv_alias_heap nv st _ dst src _ HI Hd); [apply heap_grows_write_all|exact Es].
   - (* nconc *)
-    cbn [g_step] in Hg.
-    assert (Hb : Inv nv (upd st (hp st) dst
-                           (norm match contents (hp st) (getv st b) with [] => None | _ :: _ => getv st b end))).
-    { destruct (contents (hp st) (getv st b)) as [|y cb] eqn:Eb; [apply (inv_none nv _ dst HI Hd)|].
-      destruct (getv st b) as [t|] eqn:Egb; [|discriminate Eb].
-      destruct (Nat.eq_dec (s_len t) 0) as [E0|E0]; [cbn in Eb; rewrite E0 in Eb; discriminate|].
-      apply (inv_reslice nv _ dst _ t b HI Hd); [apply live_of_getv; assumption|].
-      intros t' Ht. apply norm_some in Ht as [Ht _]. apply norm_some in Ht as [Ht _]. injection Ht as <-. auto. }
-    destruct (getv st a) as [s|] eqn:Es; [|rewrite setv_upd0; exact Hb].
-    destruct (s_len s =? 0) eqn:El; [rewrite setv_upd0; exact Hb|]. apply Nat.eqb_neq in El. clear Hb.
-    destruct (contents (hp st) (getv st b)) as [|y cb] eqn:Eb.
-    + rewrite setv_upd0. apply (inv_reslice nv st dst _ s a HI Hd); [apply live_of_getv; assumption|].
-      intros t Ht. apply norm_some in Ht as [Ht _]. apply norm_some in Ht as [Ht _]. injection Ht as <-. auto.
-    + destruct (s_len s + length (y :: cb) <=? scap (hp st) s) eqn:Ecap.
-      * rewrite ?Es, ?Eb in Hg. assert (E1 : (0 <? s_len s) = true) by (apply Nat.ltb_lt; lia). rewrite E1 in Hg. cbn [length andb] in Hg.
-        replace (0 <? S (length cb)) with true in Hg by (symmetry; apply Nat.ltb_lt; lia). cbn [andb] in Hg.
-        cbn [length] in Ecap. rewrite ?Ecap in Hg.
-        apply andb_true_iff in Hg as [Hg _]. apply andb_true_iff in Hg as [Heq Halone]. apply Nat.eqb_eq in Heq. subst dst.
-        rewrite setv_upd. apply Nat.leb_le in Ecap. unfold scap in Ecap.
-        assert (Ha : s_arr s < length (hp st)).
-        { destruct (Nat.lt_ge_cases (s_arr s) (length (hp st))) as [H|H]; [exact H|]. unfold arr in Ecap. rewrite nth_overflow in Ecap by exact H. cbn in Ecap. lia. }
-        apply (inv_extend nv st _ a s (length (y :: cb))); try assumption; try (right; auto).
-        -- apply heap_grows_write_all.
-        -- cbn [length]. lia.
-        -- apply (alone_spec nv st a (s_arr s) Halone Hlen).
-      * destruct (alloc (hp st) _ cap) as [h' r] eqn:Ea. rewrite setv_upd. eapply inv_fresh; eassumption.
+    destruct (vcontents st a) as [|x ca], (vcontents st b) as [|y cb].
+    + rewrite setv_upd0. apply inv_none; assumption.
+    + rewrite setv_upd0. apply inv_alias; assumption.
+    + rewrite setv_upd0. apply inv_alias; assumption.
+    + apply inv_fresh'; assumption.
   - (* sort *)
     destruct (getv st src) as [s|] eqn:Es; [|rewrite setv_upd0; apply inv_none; assumption].
-    rewrite setv_upd.
-    assert (HI2 : Inv nv {| hp := write_all (hp st) (s_arr s) (s_off s) (isort (contents (hp st) (Some s))); vars := vars st |})
-      by (apply inv_heap; [exact HI|apply heap_grows_write_all]).
-    destruct (Nat.eq_dec (s_len s) 0) as [E0|E0].
-    * cbn [norm]. apply Nat.eqb_eq in E0. rewrite E0. apply (inv_none nv _ dst HI2 Hd).
-    * apply (inv_reslice nv _ dst _ s src HI2 Hd); [apply live_of_getv; assumption|].
-      intros t Ht. apply norm_some in Ht as [Ht _]. apply norm_some in Ht as [Ht _]. injection Ht as <-. auto.
-  - (* remove *) destruct (alloc (hp st) _ cap) as [h' r] eqn:Ea. rewrite setv_upd. eapply inv_fresh; eassumption.
+    rewrite setv_upd. apply (inv_alias_heap nv st _ dst src _ HI Hd); [apply heap_grows_write_all|exact Es].
+  - (* remove *) apply inv_fresh'; assumption.
+  - (* mapcar *) apply inv_fresh'; assumption.
 Qed.
 
 (* ---------- histories ---------- *)
 Fixpoint run_ops (st : state) (ops : list (op * nat)) : state :=
   match ops with [] => st | (o, c) :: ops' => run_ops (step st o c) ops' end.
+(* the invariant needs no condition on the states: only rplacd is left out *)
+Definition inv_ops (nv : nat) (ops : list (op * nat)) : bool :=
+  forallb (fun oc => (dst_of (fst oc) <? nv) && g_inv (fst oc)) ops.
 Fixpoint guard_ops (nv : nat) (st : state) (ops : list (op * nat)) : bool :=
-  match ops with [] => true | (o, c) :: ops' => (dst_of o <? nv) && g_step nv st o && guard_ops nv (step st o c) ops' end.
+  match ops with [] => true | (o, c) :: ops' => (dst_of o <? nv) && g_step st o && guard_ops nv (step st o c) ops' end.
+Lemma guard_inv_ops nv ops : forall st, guard_ops nv st ops = true -> inv_ops nv ops = true.
+Proof.
+  induction ops as [|[o c] ops IH]; intros st H; [reflexivity|]. cbn in *.
+  apply andb_true_iff in H as [H1 H2]. apply andb_true_iff in H1 as [Hd Hg]. unfold g_step in Hg. apply andb_true_iff in Hg as [Hg _].
+  rewrite Hd, Hg. cbn. apply (IH _ H2).
+Qed.
 
 Lemma Inv_init nv : Inv nv (init nv).
 Proof.
@@ -430,14 +389,14 @@ Proof.
   destruct (Nat.lt_ge_cases v nv); [rewrite nth_repeat in H|rewrite nth_overflow in H by (rewrite repeat_length; lia)]; discriminate.
 Qed.
 
-Theorem inv_history nv ops : forall st, Inv nv st -> guard_ops nv st ops = true -> Inv nv (run_ops st ops).
+Theorem inv_history nv ops : forall st, Inv nv st -> inv_ops nv ops = true -> Inv nv (run_ops st ops).
 Proof.
   induction ops as [|[o c] ops IH]; intros st HI Hg; [exact HI|]. cbn in *.
   apply andb_true_iff in Hg as [Hg1 Hg2]. apply andb_true_iff in Hg1 as [Hd Hg1]. apply Nat.ltb_lt in Hd.
   apply IH; [apply inv_step; assumption|exact Hg2].
 Qed.
 
-(* In every state reached by a guarded history: a destructive operation on v changes the contents of
+(* In every state reached by a history without rplacd: a destructive operation on v changes the contents of
    another variable w only if w's slice is on v's array, and then (v being a live list) w's slice
    ends exactly where v's ends: one is a tail of the other. *)
 Theorem destructive_changes_only_tails nv st o cap v s w t :
@@ -453,81 +412,73 @@ Proof.
   - exfalso. apply Hch. eapply destructive_frame; try eassumption. right; exact Wa.
 Qed.
 
-(* consing, pushing and copying return lists on a new array: no other variable is on it, so by
-   destructive_frame no later destructive operation on either side can reach the other *)
+(* consing, pushing, copying, appending, adding, removing, mapping return lists on a new array: no other
+   variable is on it, so by destructive_frame no later destructive operation on either side can reach the other *)
 Definition fresh_op (o : op) : bool :=
-  match o with OCons _ _ _ | OPush _ _ | OCopy _ _ | OButlast _ _ => true | _ => false end.
-Lemma fresh_upd nv st h' d r w t :
-  Inv nv st -> d < nv -> s_arr r = length (hp st) -> w <> d ->
-  live (upd st h' d (norm (Some r))) w = Some t -> s_arr t <> s_arr r.
+  match o with
+  | OList _ _ | OCons _ _ _ | OPush _ _ | OCopy _ _ | OButlast _ _ | OAppend _ _ _ | OAdd _ _ _ | ORemove _ _ _
+  | OMapcar _ _ _ => true
+  | _ => false
+  end.
+Lemma live_upd_same st h' d o : d < length (vars st) -> live (upd st h' d o) d = norm o.
+Proof. intros H. rewrite live_upd by exact H. rewrite Nat.eqb_refl. reflexivity. Qed.
+Lemma fresh_alone nv st d xs cap w t r :
+  Inv nv st -> d < nv -> w <> d ->
+  live (fresh st d xs cap) d = Some r -> live (fresh st d xs cap) w = Some t -> s_arr t <> s_arr r.
 Proof.
-  intros [Hl HI] Hd Hr Hw Hlive. rewrite live_upd in Hlive by lia. apply Nat.eqb_neq in Hw. rewrite Hw in Hlive.
-  destruct (HI w t Hlive) as [[W _] _]. lia.
+  intros HI Hd Hw Hr Ht. pose proof HI as [Hl HI']. rewrite fresh_upd in Hr, Ht.
+  destruct xs as [|x xs].
+  - cbn [alloc fst snd] in Hr. rewrite live_upd_same in Hr by lia. discriminate.
+  - destruct (alloc (hp st) (x :: xs) cap) as [h' r0] eqn:Ea. destruct (alloc_spec _ _ _ _ _ Ea) as [-> ->]; [discriminate|]. cbn [fst snd] in *.
+    rewrite live_upd_same in Hr by lia. rewrite norm_idem in Hr. apply norm_some in Hr as [Hr _]. injection Hr as <-.
+    rewrite live_upd in Ht by lia. apply Nat.eqb_neq in Hw. rewrite Hw in Ht.
+    destruct (HI' w t Ht) as [[W _] _]. cbn [s_arr]. lia.
 Qed.
+Lemma none_not_live nv st d (r : slice) : Inv nv st -> d < nv -> live (upd st (hp st) d None) d = Some r -> False.
+Proof. intros [Hl _] Hd H. rewrite live_upd_same in H by lia. discriminate. Qed.
 Theorem fresh_result_alone nv st o cap w t r :
   Inv nv st -> fresh_op o = true -> dst_of o < nv -> w <> dst_of o ->
   live (step st o cap) (dst_of o) = Some r -> live (step st o cap) w = Some t -> s_arr t <> s_arr r.
 Proof.
-  intros HI Hf Hd Hw Hr Ht. pose proof HI as [Hl _].
-  assert (G : forall xs, xs <> [] ->
-            live (upd st (fst (alloc (hp st) xs cap)) (dst_of o) (norm (Some (snd (alloc (hp st) xs cap))))) (dst_of o) = Some r ->
-            live (upd st (fst (alloc (hp st) xs cap)) (dst_of o) (norm (Some (snd (alloc (hp st) xs cap))))) w = Some t ->
-            s_arr t <> s_arr r).
-  { intros xs Hne Hr' Ht'. destruct (alloc (hp st) xs cap) as [h' r0] eqn:Ea. destruct (alloc_spec _ _ _ _ _ Ea Hne) as [-> ->]. cbn [fst snd] in *.
-    rewrite live_upd in Hr' by lia. rewrite Nat.eqb_refl, norm_idem in Hr'. apply norm_some in Hr' as [Hr' _]. injection Hr' as <-.
-    eapply (fresh_upd nv st _ (dst_of o) _ w t HI Hd); [reflexivity|exact Hw|exact Ht']. }
-  destruct o; try discriminate Hf; cbn [dst_of step] in *.
-  - (* cons *) destruct (alloc (hp st) (x :: contents (hp st) (getv st src)) cap) as [h' r0] eqn:Ea.
-    rewrite setv_upd in Hr, Ht. apply (G (x :: contents (hp st) (getv st src))); [discriminate| |]; rewrite Ea; assumption.
+  intros HI Hf Hd Hw Hr Ht.
+  destruct o; try discriminate Hf; cbn [dst_of step] in *;
+    try (eapply fresh_alone; eassumption).
   - (* butlast *)
-    destruct (getv st src) as [s|] eqn:Es.
-    + destruct (s_len s <=? 1) eqn:El.
-      * rewrite setv_upd0, live_upd in Hr by lia. rewrite Nat.eqb_refl in Hr. discriminate.
-      * destruct (alloc (hp st) (firstn (s_len s - 1) (contents (hp st) (Some s))) cap) as [h' r0] eqn:Ea.
-        rewrite setv_upd in Hr, Ht.
-        destruct (firstn (s_len s - 1) (contents (hp st) (Some s))) as [|z zs] eqn:Ef.
-        -- unfold alloc in Ea. injection Ea as <- <-. rewrite live_upd in Hr by lia. rewrite Nat.eqb_refl in Hr. discriminate.
-        -- apply (G (z :: zs)); [discriminate| |]; rewrite Ea; assumption.
-    + rewrite setv_upd0, live_upd in Hr by lia. rewrite Nat.eqb_refl in Hr. discriminate.
+    destruct (getv st src) as [s|] eqn:Es; [destruct (s_len s <=? 1)|];
+      try (eapply fresh_alone; eassumption); rewrite setv_upd0 in Hr; exfalso; eapply none_not_live; eassumption.
   - (* copy-list *)
-    destruct (getv st src) as [s|] eqn:Es.
-    + destruct (alloc (hp st) (contents (hp st) (Some s)) cap) as [h' r0] eqn:Ea. rewrite setv_upd in Hr, Ht.
-      destruct (contents (hp st) (Some s)) as [|z zs] eqn:Ef.
-      * unfold alloc in Ea. injection Ea as <- <-. rewrite live_upd in Hr by lia. rewrite Nat.eqb_refl in Hr. discriminate.
-      * apply (G (z :: zs)); [discriminate| |]; rewrite Ea; assumption.
-    + rewrite setv_upd0, live_upd in Hr by lia. rewrite Nat.eqb_refl in Hr. discriminate.
-  - (* push *) destruct (alloc (hp st) (x :: contents (hp st) (getv st v)) cap) as [h' r0] eqn:Ea.
-    rewrite setv_upd in Hr, Ht. apply (G (x :: contents (hp st) (getv st v))); [discriminate| |]; rewrite Ea; assumption.
+    destruct (getv st src) as [s|] eqn:Es;
+      try (eapply fresh_alone; eassumption); rewrite setv_upd0 in Hr; exfalso; eapply none_not_live; eassumption.
 Qed.
 
-(* ---------- refutations outside the guard (the faithful model against the frame rules) ---------- *)
-Fixpoint judge_m (nv : nat) (st : state) (c : cstate) (ops : list (op * nat)) : bool :=   (* all steps frame_ok *)
+(* ---------- the reference machine along a history ---------- *)
+Definition agree_b (nv : nat) (st : state) (c : cheap) : bool :=
+  forallb (fun w => zlist_eqb (vcontents st w) (ccontents c w)) (seq 0 nv).
+Fixpoint judge_m (nv : nat) (st : state) (c : cheap) (ops : list (op * nat)) : bool :=   (* after every step all variables agree *)
   match ops with
   | [] => true
-  | (o, cap) :: ops' =>
-      let st' := step st o cap in
-      frame_ok nv c o (vcontents st) (vcontents st') && judge_m nv st' (cstep c o) ops'
+  | (o, cap) :: ops' => let st' := step st o cap in let c' := cstep c o in agree_b nv st' c' && judge_m nv st' c' ops'
   end.
-Definition w_add_overwrites : list (op * nat) :=
-  [(OList [1; 2; 3]%Z 0, 3); (OAdd 0 4 1, 6); (OAdd 1 5 2, 0); (OAdd 1 6 3, 0)].
-Definition w_subseq_shares : list (op * nat) :=
-  [(OList [1; 2; 3]%Z 0, 3); (OSubseq 1 3 0 1, 0); (OSetcar 1 7, 0)].
-Lemma add_overwrites_refuted :
-  vcontents (run_ops (init 4) w_add_overwrites) 2 = [1; 2; 3; 4; 6]%Z /\
-  judge_m 4 (init 4) (cinit 4) w_add_overwrites = false /\ guard_ops 4 (init 4) w_add_overwrites = false.
-Proof. repeat split; vm_compute; reflexivity. Qed.
-Lemma subseq_shares_refuted :
-  vcontents (run_ops (init 4) w_subseq_shares) 0 = [1; 7; 3]%Z /\
-  judge_m 4 (init 4) (cinit 4) w_subseq_shares = false /\ guard_ops 4 (init 4) w_subseq_shares = false.
-Proof. repeat split; vm_compute; reflexivity. Qed.
 
-(* non-vacuity: a guarded history with sharing through cdr, destructive updates that legitimately show
-   through, an in-place add on the only owner of its array, nconc, nreverse and sort *)
+(* non-vacuity: a guarded history with sharing through cdr and member, destructive updates that legitimately
+   show through, add, nconc, nreverse, sort, rplaca, list*, mapcar *)
 Definition ex_guarded : list (op * nat) :=
   [(OList [5; 3; 9; 1]%Z 0, 4); (OCdr 0 1, 0); (OSetcar 1 7, 0); (OCons 0 1 2, 4); (OCopy 0 3, 4); (ONreverse 3 3, 0);
-   (OList [2; 8]%Z 1, 4); (OAdd 1 6 1, 0); (OSort 0 0, 0); (ONconc 1 3 1, 8); (OPop 2, 0); (OSetnth 2 1 0, 0)].
+   (OList [2; 8]%Z 1, 4); (OAdd 1 6 1, 4); (OSort 0 0, 0); (ONconc 1 3 1, 8); (OPop 2, 0); (OSetnth 2 1 0, 0)].
 Lemma guarded_example :
   guard_ops 4 (init 4) ex_guarded = true /\ judge_m 4 (init 4) (cinit 4) ex_guarded = true /\
   map (vcontents (run_ops (init 4) ex_guarded)) [0; 1; 2; 3] =
     [[1; 5; 7; 9]; [2; 8; 6; 1; 9; 7; 5]; [7; 0; 1]; [1; 9; 7; 5]]%Z.
+Proof. repeat split; vm_compute; reflexivity. Qed.
+
+(* the histories that were the add and subseq findings are inside the guard now and come out right *)
+Definition ex_add_siblings : list (op * nat) :=
+  [(OList [1; 2; 3]%Z 0, 3); (OAdd 0 4 1, 6); (OAdd 1 5 2, 8); (OAdd 1 6 3, 8)].
+Definition ex_subseq_copy : list (op * nat) :=
+  [(OList [1; 2; 3]%Z 0, 3); (OSubseq 1 3 0 1, 2); (OSetcar 1 7, 0)].
+Lemma repaired_examples :
+  guard_ops 4 (init 4) ex_add_siblings = true /\
+  map (vcontents (run_ops (init 4) ex_add_siblings)) [2; 3] = [[1; 2; 3; 4; 5]; [1; 2; 3; 4; 6]]%Z /\
+  guard_ops 4 (init 4) ex_subseq_copy = true /\
+  map (vcontents (run_ops (init 4) ex_subseq_copy)) [0; 1] = [[1; 2; 3]; [7; 3]]%Z.
 Proof. repeat split; vm_compute; reflexivity. Qed.
